@@ -33,7 +33,7 @@ def prepare(build, tier):
 
 
 def budget(tier):
-    return (1300, 16) if tier == "quick" else (60000, 16)
+    return (1300, 16) if tier == "quick" else (30000, 16)
 
 
 @st.composite
